@@ -1591,7 +1591,8 @@ impl RunningProgram {
         write!(result, "| register {}({}) {{", bank.label, status)?;
         line_loc += 18;
         for signal in &bank.signals {
-            let name = signal.0.split_at(2).1;
+            // the input wire is <prefix letter>_<register name>; the letter need not be one byte long
+            let name = signal.0.splitn(2, '_').nth(1).unwrap_or("");
             let width = signal.2;
             let hex_width = ((width.bits_or_128() + 3) / 4) as usize;
             if line_loc + 2 + hex_width + name.len() >= max_loc {
